@@ -81,6 +81,9 @@ pub fn profile(prop: &str, rng: &mut Rng) -> Profile {
             p.purge_heavy = rng.chance(30);
             p.big_payloads = rng.chance(30);
             p.final_flush = rng.chance(50);
+            p.flush_heavy = rng.chance(60);
+            p.small_chunks_pct = *rng.pick(&[40, 85]);
+            p.eager_worker_pct = 50;
         }
         "C06" => {
             p.nops = (10, 80);
